@@ -403,6 +403,18 @@ class SimReactor(object):
         self._now = max(self._now, target)
         self.settle(chooser)
 
+    def advance_before(self, target, chooser=None):
+        """Advance the clock to `target`, running every call due strictly before it and NOT the
+        ones due exactly at it (so a peer message can be delivered first at that instant)."""
+        self.settle(chooser)
+        while True:
+            nt = self.next_time()
+            if nt is None or nt >= target - 1e-9:
+                break
+            self._now = max(self._now, nt)
+            self.settle(chooser)
+        self._now = max(self._now, target)
+
     def advance_to_next(self, chooser=None):
         nt = self.next_time()
         if nt is None:
